@@ -201,6 +201,25 @@ EXTRA = {
            "Property VALUES: Model/ValueCodec (mashumaro's per-annotation codec) with dec_enc under the decidable side condition Ty.rt and decide-checked "
            "witnesses for the three listed findings F31-F33; standard-library scalars (timestamps, dates, times, durations, decimals, UUIDs, fractions, bytes) "
            "are covered by a round-trip oracle in all four formats (found F34, fixed).",
+    "C05": "Audit additions (q6): an independent path-level spec (Spec/Traverse: trails = chains of stored positions) and dfs_eq_trails / dfs_bottom_up_eq_trails / bfs_eq_trails "
+           "(each implementation loop = its trail enumeration, any prune / filter); exactly-once WITH shared objects under WellKeyed only (dfs_enumerates_paths, "
+           "dfs_bottom_up_enumerates_paths, bfs_enumerates_paths: injective, onto all non-empty paths, in lexicographic / post / short-lex order); bfs tied to depth "
+           "(level_iff_depth, bfs_concat_depth, bfs_depth_sorted_chain); the lookup form of position soundness (dfs_yield_lookup, bfs_yield_lookup, gather_yield_lookup: "
+           "field found by name, tuple => nodes[i] is the node, single => index None); gather_spec (one equation); hypotheses derived from WFN (wellKeyed_of_wfn).",
+    "C09": "Audit additions (q7): an independent rewrite spec Rw (no counter, no changed flag, no fuel, no dispatch) and T_strip / transform_strip (the model's transform = Rw up to "
+           "object identities, under coherence hypotheses shown necessary by decide witnesses); transform_no_fuel / transform_err (the only error is the visitor's own raise); "
+           "dispatch_own (the full decision table: own class's method, strict or not; nearest base for non-strict; generic otherwise); new_uids / new_ne_input (created objects have "
+           "pairwise distinct new identities), changed_ancestors_new_rw, unchanged_semantic, raise_propagates. The handler cross-checks transform against Rw and dispatch against the table on every request.",
+    "C11": "Audit additions (q8): classify_trichotomy; one general theorem per rejected shape of the statement at any depth (mutable_rejected, mixed_union_rejected, node_in_container_rejected, "
+           "opt_in_tuple_rejected, nested_tuple_rejected, optional_tuple_rejected, node_never_prop); forward references (classify_resolveFwd, classify_deferAll, reject_moves_to_definition, "
+           "accepted_iff_resolved_passes); NewType erasure with the weakest side condition (classify_erase_weak, classify_erase_cases; witnesses that it is needed, confirmed on the real code); "
+           "union member permutation at any depth (classify_permEq, classify_union_perm); never_silently_prop, fieldVerdict_most_derived (no distinct-names hypothesis); the link to the accessor "
+           "model: resolve_eq_effective and field_lands_in_exactly_one (child / property tables disjoint and exhaustive, kinds agree; c11-fkind correspondence with FieldTypeInfo.is_collection).",
+    "C15": "Audit additions (q9): totality and validity preservation (add_total, concat_total, add_ok, concat_ok, merge_valid); source `==` is an equivalence, mergeable_symm, mkMulti_common / "
+           "mkMulti_common_perm (common source iff pairwise ==; otherwise the set of ALL member sources in operand order: sourceSet_keeps_duplicates, confirmed on the real code); "
+           "concat_eq_merge_iff (concat = merge exactly when the first two non-empty operands are not fusable), concat_lists_operands / concat_lists_fused; boundary witnesses for nested operands "
+           "(nested_operand_stays_nested, confirmed on the real code, declared outside the property); Python slicing (Model/PySlice, slice_eq_pySlice, getRaw_constructed, o-pyslice correspondence); "
+           "CodeRange.fqn is generated by py2lean and bridged (range_fqn_generated).",
     "C06": "Audit additions: every query on a foreign node raises KeyError (foreign_all_keyError, *_keyError_iff), chains are unique (chain_unique, exists_unique_chain; "
            "NoRepeat necessary: chain_unique_needs_noRepeat), is_root characterised, queries_total; xpath strings can be followed back from the root to the very node (follow_getXpath, follow_steps_unique).",
     "C07": "q4 additions: findall_iff_match (n in findall iff match, the property's first sentence, from the tables), findall_exactly_matches / findall_nodup_nodes, "
